@@ -114,4 +114,56 @@ theorem piv_never_reused (f start : Nat) (ops : List SOp) (hs : start ≤ SEQ_MA
     (hl : ops.length < 2 ^ 63) : ReplaySpec.senderOk (pivs (srun (SSys.start f start) ops)) :=
   (piv_strictly_increasing f start ops hs hl).imp (fun h => Nat.ne_of_lt h)
 
+
+/-- **P1: M refines S.**  The trace of every history of a fresh recipient context conforms to the specification
+monitor (every outcome is one the monitor allows: forgeries rejected, accepted PIVs rejected, fresh in-window
+requests accepted, Appendix B.1.2 outcomes). -/
+theorem recv_conforms_spec (cfg : Cfg) (evs : List Ev) :
+    ReplaySpec.conforms cfg.window (ReplaySpec.St.start cfg.b12) (strace cfg Recip.fresh evs) := by
+  have := strace_conforms cfg evs Recip.fresh [] good_fresh
+  simpa [ReplaySpec.St.start, Recip.fresh] using this
+
+/-- **P2: S ⊨ at most once.**  Whatever implementation produced it, a trace that conforms to the monitor accepts
+every Partial IV at most once. -/
+theorem spec_accept_at_most_once (w : Nat) (b12 : Bool) (t : List (ReplaySpec.Req × ReplaySpec.Out))
+    (h : ReplaySpec.conforms w (ReplaySpec.St.start b12) t) : (tracc t).Nodup :=
+  (spec_nodup_aux w t _ (fun _ => rfl) h).1
+
+/-- P2: a trace that conforms to the monitor rejects every request that does not authenticate. -/
+theorem spec_forged_rejected (w : Nat) (s : ReplaySpec.St) (q : ReplaySpec.Req) (o : ReplaySpec.Out)
+    (t : List (ReplaySpec.Req × ReplaySpec.Out)) (h : ReplaySpec.conforms w s ((q, o) :: t))
+    (hq : q.authentic = false) : o = .reject := by
+  have := h.1
+  simpa [ReplaySpec.allowed, hq] using this
+
+/-- P1 ∘ P2: `accept_at_most_once` again, this time through the specification. -/
+theorem accepted_via_spec (cfg : Cfg) (evs : List Ev) : (accepted cfg Recip.fresh evs).Nodup := by
+  rw [← tracc_strace]
+  exact spec_accept_at_most_once cfg.window cfg.b12 _ (recv_conforms_spec cfg evs)
+
+/-! ### Non-vacuity: concrete histories (the minimal witnesses of the defects fixed in libcoap, see design/C15.md) -/
+
+private def a (p : Nat) : Ev := ⟨true, p, .none⟩
+private def e (p : Nat) : Ev := ⟨true, p, .good⟩
+private def x (p : Nat) : Ev := ⟨false, p, .none⟩
+
+-- 10, 12, replay of 10, fresh 11, replay of 11 (pinned tree: replay of 10 accepted, 11 rejected)
+example : verdicts ⟨32, true⟩ Recip.fresh [e 10, a 12, a 10, a 11, a 11] = [.acc, .acc, .rej401, .acc, .rej401] := by decide
+-- without Appendix B.1.2 (pinned tree: everything accepted)
+example : verdicts ⟨32, false⟩ Recip.fresh [a 10, a 10, x 5, a 5] = [.acc, .rej401, .rej400, .acc] := by decide
+-- forged 50 after genuine 0 (pinned tree: last_seq stayed 50 and genuine 1 was rejected)
+example : verdicts ⟨32, true⟩ Recip.fresh [e 0, x 50, a 1] = [.acc, .rej400, .acc] := by decide
+example : (final ⟨32, true⟩ Recip.fresh [e 0, x 50]).view = (final ⟨32, true⟩ Recip.fresh [e 0]).view := by decide
+-- 10, 12, 8, replay of 12 (pinned tree: last_seq lowered to 8, 12 accepted again)
+example : verdicts ⟨32, true⟩ Recip.fresh [e 10, a 12, a 8, a 12] = [.acc, .acc, .acc, .rej401] := by decide
+-- a jump of 95 (pinned tree: window << 95)
+example : verdicts ⟨32, true⟩ Recip.fresh [e 5, a 100, a 5, a 101] = [.acc, .acc, .rej401, .acc] := by decide
+-- Appendix B.1.2 exchange: challenge, then the Echo request, then the challenged request itself (never accepted before)
+example : verdicts ⟨32, true⟩ Recip.fresh [a 4, e 5, e 5, a 4] = [.chal, .acc, .rej401, .acc] := by decide
+-- the hypotheses of fresh_in_window_accepted are satisfiable with a non-trivial history
+example : accepted ⟨3, false⟩ Recip.fresh [a 10, a 12, x 11] = [10, 12] := by decide
+-- sender: ssn_freq 4, crash after PIV 5 (stored value 8), resume at 8
+example : pivs (srun (SSys.start 4 0) [.protect, .protect, .protect, .protect, .protect, .protect, .crash 4, .protect])
+    = [0, 1, 2, 3, 4, 5, 8] := by decide
+
 end Coap.C15
